@@ -196,6 +196,13 @@ def correspondence(tier, seed, corpus=()):
     cases += ip_cases
     dumps += ip_trees
     hist["in-place operators"] = len(ip_cases)
+    kind_rows, kind_bad = kinds_table()
+    seen_kinds = set()
+    for kb in kind_bad:
+        if (kb["left"], kb["op"], kb["right"]) not in seen_kinds:
+            seen_kinds.add((kb["left"], kb["op"], kb["right"]))
+            problems.append(dict(kind="operand-kind-not-as-documented", **kb))
+    hist["operand-kind table rows"] = kind_rows
     bad = run_cases("c06", IMPORTS, RUN, cases, input_type=INPUT_TYPE)
     mism = []
     for i in bad[:5]:
@@ -206,7 +213,9 @@ def correspondence(tier, seed, corpus=()):
     return dict(name="dsl-trees", evaluations=len(cases), distinct_nontrivial=len(distinct),
                 rule="seeded random DSL trees (points, expressions, comparisons; zero/negative scalars, repeated, "
                      "cancelling, nearly-cancelling and mirrored operands) plus augmented assignments with an aliased "
-                     "left operand; non-trivial = at least 3 operator nodes; distinct by syntax",
+                     "left operand; non-trivial = at least 3 operator nodes; distinct by syntax; plus the table of every "
+                     "binary operator x operand kind (documented kinds give the documented class, str / bytes / complex / "
+                     "None / containers / other PEPit classes must raise, numpy integers may raise or act as the number)",
                 mismatches=mism, n_mismatch=len(bad), problems=problems[:5], n_problems=len(problems),
                 samples=[dict(tree=dumps[i][0], result=dumps[i][1]) for i in range(min(2, len(dumps)))],
                 distribution=dict(root_ops=hist, size_min=min(sizes), size_max=max(sizes),
@@ -227,7 +236,7 @@ def kinds_table():
     fn = Function(is_leaf=True)
     kinds = {
         "int": 2, "bool": True, "float": 0.5, "np.float64": np.float64(0.5), "np.int64": np.int64(2),
-        "complex": 1j, "None": None, "str": "a", "list": [1], "tuple": (1,),
+        "complex": 1j, "None": None, "str": "a", "numeric str": "3", "bytes": b"3", "list": [1], "tuple": (1,),
         "Point": q, "Expression": f, "Function": fn, "Constraint": (e <= 1), "PSDMatrix": PSDMatrix([[e]]),
     }
     scal = {"int", "bool", "float", "np.float64"}
@@ -300,14 +309,40 @@ def kinds_table():
                             want = "bool"
                         if ak == "Point" and oname == "eq":
                             want = "bool"
+                        if want == "bool" and got == "raise":
+                            continue      # == on a Point is not a DSL operation: identity or an error, never an object
+                        # numpy integers are outside the documented int/float kinds: the operation may raise, or
+                        # treat the operand as the number it is (same object as with the Python number) -- what it
+                        # must not do is produce an object with another meaning
+                        if want == "raise" and got != "raise" and "np.int64" in (ak, bk) and oname != "pow":
+                            try:
+                                r2 = ofun(int(a) if ak == "np.int64" else a, int(b) if bk == "np.int64" else b)
+                                if type(r2) is type(r) and _same_object(r, r2):
+                                    continue
+                            except Exception:
+                                pass
                         if got != want and not (want == "raise" and got in ("NotImplementedType",)):
                             bad.append(dict(left=ak, op=oname, right=bk, documented=want, got=got))
     return rows, bad
 
 
+def _same_object(r, r2):
+    """two DSL results denote the same thing: same decomposition (and sense for constraints)"""
+    def dd(o):
+        return [(id(k) if not isinstance(k, tuple) else tuple(id(x) for x in k), float(v))
+                for k, v in o.decomposition_dict.items()]
+    if hasattr(r, "equality_or_inequality"):
+        return (r.equality_or_inequality == r2.equality_or_inequality
+                and dd(r.expression) == dd(r2.expression))
+    return dd(r) == dd(r2)
+
+
 def search(tier, seed):
     """failing-input search on the implementation alone (used when a proof or the correspondence broke)"""
     rng = random.Random(seed + 60606)
+    _, kind_bad = kinds_table()
+    if kind_bad:
+        return dict(kind="operand-kind-not-as-documented", **kind_bad[0])
     for i in range(4000 if tier == "quick" else 40000):
         t = gen_tree(rng)
         try:
@@ -324,6 +359,10 @@ def search(tier, seed):
 
 def replay(payload):
     """re-run a stored failing tree on the current implementation; True iff it still fails"""
+    if payload.get("kind") == "operand-kind-not-as-documented":
+        _, kind_bad = kinds_table()
+        return any((kb["left"], kb["op"], kb["right"]) == (payload["left"], payload["op"], payload["right"])
+                   for kb in kind_bad)
     t = _detuple(payload["tree"])
     rng = random.Random(1)
     try:
